@@ -24,3 +24,58 @@ contract(A, '_index_of', props=['C07', 'C06', 'C15'], params={'arr': 'arr[int]',
     # "the index-in-lookup helper agrees with its set-theoretic definition": result[k] is THE position of arr[k] in the lookup
     ensures=[('same-length', 'len(result) == len(arr)'),
              ('position-in-lookup', 'all(0 <= result[k] and result[k] < len(lookup) and lookup[result[k]] == arr[k] for k in range(len(arr)))')])
+
+# ---- _spikes_per_cluster: "for each cluster id present and no other, exactly the increasing array of spike indices (or supplied spike ids)
+#      carrying that id, so the groups partition all spikes" -------------------------------------------------------------------------------
+_SID = lambda s: 'ite(spike_ids is None, %s, spike_ids[%s])' % (s, s)
+_K, _V = 'dkeys(result)', 'dvals(result)'
+_RUNS = ['groups-are-the-runs', 'ids-are-constant-between-boundaries', 'boundaries-start-at-zero-and-increase', 'sorted-position-p-holds-spike-rel[p]']
+contract(A, '_spikes_per_cluster', props=['C07'], params={'spike_clusters': 'arr[int]', 'spike_ids': 'opt[arr[int]]'}, defaults={'spike_ids': 'None'}, result='assoc[int]',
+    requires=[('one-id-per-spike', 'implies(spike_ids is not None, len(spike_ids) == len(spike_clusters))'),
+              ('supplied-spike-ids-increasing', 'implies(spike_ids is not None, all(spike_ids[a] < spike_ids[b] for a in range(len(spike_ids)) for b in range(a + 1, len(spike_ids))))')],
+    # S = cluster ids in sorted order; idx = the positions where a new id starts; run i = positions idx[i] .. next boundary - 1
+    cuts=[('spike_clusters = spike_clusters[rel_spikes]', 'let:S', 'spike_clusters'),
+          ('spike_clusters = spike_clusters[rel_spikes]', 'sorted', 'all(S[a] <= S[b] for a in range(len(S)) for b in range(a + 1, len(S)))'),
+          ('spike_clusters = spike_clusters[rel_spikes]', 'sorted-position-p-holds-spike-rel[p]',
+           'len(S) == len(old(spike_clusters)) and len(abs_spikes) == len(S) and all(0 <= rel_spikes[p] and rel_spikes[p] < len(S) and S[p] == old(spike_clusters)[rel_spikes[p]] and abs_spikes[p] == ite(old(spike_ids) is None, rel_spikes[p], old(spike_ids)[rel_spikes[p]]) for p in range(len(S)))'),
+          ('spike_clusters = spike_clusters[rel_spikes]', 'every-spike-has-a-sorted-position', 'all(any(rel_spikes[p] == s for p in range(len(S))) for s in range(len(old(spike_clusters))))'),
+          ('spike_clusters = spike_clusters[rel_spikes]', 'equal-ids-keep-the-spike-order', 'all(implies(S[p] == S[q], abs_spikes[p] < abs_spikes[q]) for p in range(len(S)) for q in range(p + 1, len(S)))'),
+          ('diff[1:] = np.diff', 'diff-is-the-step-of-the-sorted-ids', 'len(diff) == len(S) and diff[0] == 1 and all(diff[p] == S[p] - S[p - 1] for p in range(1, len(S)))'),
+          ('idx = np.nonzero', 'lemma:L4', '(idx, S)'),
+          ('idx = np.nonzero', 'boundaries-are-exactly-the-positive-steps', 'all(iff(any(idx[i] == p for i in range(len(idx))), diff[p] > 0) for p in range(len(S)))'),
+          ('idx = np.nonzero', 'boundaries-start-at-zero-and-increase', 'len(idx) >= 1 and idx[0] == 0 and all(idx[i] < idx[j] for i in range(len(idx)) for j in range(i + 1, len(idx))) and all(0 <= idx[i] and idx[i] < len(S) for i in range(len(idx)))'),
+          ('idx = np.nonzero', 'every-position-lies-in-a-run', 'all(any(idx[k] <= p and (k + 1 >= len(idx) or p < idx[k + 1]) for k in range(len(idx))) for p in range(len(S)))'),
+          ('idx = np.nonzero', 'a-boundary-starts-a-larger-id', 'all(implies(idx[i] >= 1, S[idx[i] - 1] < S[idx[i]]) for i in range(len(idx)))'),
+          ('idx = np.nonzero', 'other-positions-continue-the-run', 'all(implies(not any(idx[i] == p for i in range(len(idx))), S[p - 1] == S[p]) for p in range(1, len(S)))'),
+          ('idx = np.nonzero', 'lemma:L3', 'S'),
+          ('idx = np.nonzero', 'ids-are-constant-between-boundaries', 'all(all(implies(idx[i] <= p and (i + 1 >= len(idx) or p < idx[i + 1]), S[p] == S[idx[i]]) for p in range(len(S))) for i in range(len(idx)))'),
+          ('spikes_in_clusters[clusters[-1]] =', 'groups-are-the-runs',
+           'len(dkeys(spikes_in_clusters)) == len(idx) and len(dvals(spikes_in_clusters)) == len(idx) and all(dkeys(spikes_in_clusters)[k] == S[idx[k]] and '
+           'len(dvals(spikes_in_clusters)[k]) == ite(k + 1 < len(idx), idx[k + 1], len(S)) - idx[k] and '
+           'all(dvals(spikes_in_clusters)[k][j] == abs_spikes[idx[k] + j] for j in range(len(dvals(spikes_in_clusters)[k]))) for k in range(len(idx)))'),
+          # the same fact read by sorted position instead of by offset inside the group
+          ('spikes_in_clusters[clusters[-1]] =', 'every-position-of-a-run-is-in-its-group',
+           'all(all(implies(idx[k] <= p and (k + 1 >= len(idx) or p < idx[k + 1]), p - idx[k] < len(dvals(spikes_in_clusters)[k]) and dvals(spikes_in_clusters)[k][p - idx[k]] == abs_spikes[p]) for p in range(len(S))) for k in range(len(idx)))'),
+          ('clusters = spike_clusters[idx]', 'cluster-keys-increase', 'len(clusters) == len(idx) and all(clusters[i] < clusters[j] for i in range(len(clusters)) for j in range(i + 1, len(clusters)))')],
+    using={'every-position-lies-in-a-run': ['lemma:L4', 'boundaries-start-at-zero-and-increase'],
+           'other-positions-continue-the-run': ['sorted', 'diff-is-the-step-of-the-sorted-ids', 'boundaries-are-exactly-the-positive-steps'],
+           'a-boundary-starts-a-larger-id': ['diff-is-the-step-of-the-sorted-ids', 'boundaries-are-exactly-the-positive-steps'],
+           'ids-are-constant-between-boundaries': ['lemma:L3', 'other-positions-continue-the-run', 'boundaries-start-at-zero-and-increase'],
+           'cluster-keys-increase': ['sorted', 'a-boundary-starts-a-larger-id', 'boundaries-start-at-zero-and-increase', 'theory:index'],
+           'every-position-of-a-run-is-in-its-group': ['groups-are-the-runs', 'boundaries-start-at-zero-and-increase'],
+           'groups-are-the-runs': ['theory:dictcomp', 'theory:slice', 'theory:index', 'boundaries-start-at-zero-and-increase'],
+           'sorted-position-p-holds-spike-rel[p]': ['theory:index', 'theory:np.argsort', 'theory:np.arange'],
+           'every-spike-has-a-sorted-position': ['theory:np.argsort'],
+           'equal-ids-keep-the-spike-order': ['theory:index', 'theory:np.argsort', 'theory:np.arange', 'supplied-spike-ids-increasing', 'one-id-per-spike'],
+           'one-group-per-key-keys-increasing': ['groups-are-the-runs', 'cluster-keys-increase', 'theory:index'],
+           'no-group-for-an-id-that-is-not-present': _RUNS,
+           'one-group-for-each-id-present': _RUNS + ['every-position-lies-in-a-run', 'every-spike-has-a-sorted-position'],
+           'groups-hold-only-spikes-carrying-that-id': _RUNS,
+           'every-spike-is-in-the-group-of-its-id': _RUNS + ['every-position-lies-in-a-run', 'every-spike-has-a-sorted-position', 'every-position-of-a-run-is-in-its-group'],
+           'each-group-is-increasing': _RUNS + ['equal-ids-keep-the-spike-order']},
+    ensures=[('one-group-per-key-keys-increasing', 'len(%s) == len(%s) and all(%s[a] < %s[b] for a in range(len(%s)) for b in range(a + 1, len(%s)))' % (_K, _V, _K, _K, _K, _K)),
+             ('no-group-for-an-id-that-is-not-present', 'all(any(spike_clusters[s] == %s[k] for s in range(len(spike_clusters))) for k in range(len(%s)))' % (_K, _K)),
+             ('one-group-for-each-id-present', 'all(any(%s[k] == spike_clusters[s] for k in range(len(%s))) for s in range(len(spike_clusters)))' % (_K, _K)),
+             ('groups-hold-only-spikes-carrying-that-id', 'all(all(any(spike_clusters[s] == %s[k] and %s[k][j] == %s for s in range(len(spike_clusters))) for j in range(len(%s[k]))) for k in range(len(%s)))' % (_K, _V, _SID('s'), _V, _K)),
+             ('every-spike-is-in-the-group-of-its-id', 'all(any(%s[k] == spike_clusters[s] and any(%s[k][j] == %s for j in range(len(%s[k]))) for k in range(len(%s))) for s in range(len(spike_clusters)))' % (_K, _V, _SID('s'), _V, _K)),
+             ('each-group-is-increasing', 'all(all(%s[k][i] < %s[k][j] for i in range(len(%s[k])) for j in range(i + 1, len(%s[k]))) for k in range(len(%s)))' % (_V, _V, _V, _V, _K))])
